@@ -81,6 +81,7 @@ type action struct {
 	V    int    `json:"v,omitempty"`
 	D    string `json:"d,omitempty"`
 	Sz   int    `json:"sz,omitempty"`
+	K    string `json:"k,omitempty"` // "open": carries its orientation; "cont": TCP segment without SYN
 	Q    *qry   `json:"q,omitempty"`
 }
 
@@ -112,7 +113,9 @@ type expRes struct {
 }
 
 type expObs struct {
-	Mem map[string][]flowRow   `json:"mem"`
+	Mem  map[string][]flowRow  `json:"mem"`
+	Idle map[string][]int      `json:"idle"` // flows remembered without traffic
+
 	DB  map[string][][]flowRow `json:"db"`
 	Res expRes                 `json:"res"`
 }
@@ -182,7 +185,10 @@ const (
 // buildPacket assembles the IP layer of one packet of flow f from source port variant v: a TCP SYN,
 // a UDP datagram from an ephemeral port, an ICMP echo request or a bare packet of another
 // protocol - shapes whose orientation the capture keeps as sent (properties C19/C22 own that rule).
-func buildPacket(f Flow, v int) []byte {
+//
+// kind "cont" (TCP only) is a later segment of the conversation: ACK without SYN, nothing in the
+// packet tells which side opened the connection.
+func buildPacket(f Flow, v int, kind string) []byte {
 	hdr := 40
 	if f.Fam == 4 {
 		hdr = 20
@@ -210,6 +216,9 @@ func buildPacket(f Flow, v int) []byte {
 		binary.BigEndian.PutUint16(t[2:4], uint16(f.Dport))
 		t[12] = 0x50
 		t[13] = 0x02 // SYN
+		if kind == "cont" {
+			t[13] = 0x10 // ACK
+		}
 	case f.Proto == protoUDP:
 		binary.BigEndian.PutUint16(t[0:2], uint16(40000+v))
 		binary.BigEndian.PutUint16(t[2:4], uint16(f.Dport))
@@ -336,19 +345,27 @@ func ofCounters(c types.Counters) cnt {
 
 // memory reads the aggregated in-memory flows of one interface from the capture's flow log
 // (source port dropped, entries without traffic ignored): flow id -> counters.
-func (w *world) memory(u *universe, iface string) (map[int]cnt, error) {
+//
+// idle are the flows the log remembers without traffic (entries with zero counters only).
+func (w *world) memory(u *universe, iface string) (res map[int]cnt, idle map[int]bool, err error) {
 	fl, err := w.flowLog(iface)
 	if err != nil {
-		return nil, err
+		return nil, nil, err
 	}
-	res := map[int]cnt{}
-	add := func(k types.Key, c cnt) error {
-		if c[2] == 0 && c[3] == 0 {
-			return nil
+	res, idle = map[int]cnt{}, map[int]bool{}
+	defer func() {
+		for id := range res {
+			delete(idle, id)
 		}
+	}()
+	add := func(k types.Key, c cnt) error {
 		id, ok := u.byKey[string(k)]
 		if !ok {
 			return fmt.Errorf("flow log of %s holds a key outside the universe: %s", iface, k.String())
+		}
+		if c[2] == 0 && c[3] == 0 {
+			idle[id] = true
+			return nil
 		}
 		res[id] = addCnt(res[id], c)
 		return nil
@@ -357,16 +374,16 @@ func (w *world) memory(u *universe, iface string) (map[int]cnt, error) {
 	for k, f := range fl.FlowsV4() {
 		k4.PutV4String(k)
 		if err := add(k4, ofCounters(types.Counters(*f))); err != nil {
-			return nil, err
+			return nil, nil, err
 		}
 	}
 	for k, f := range fl.FlowsV6() {
 		k6.PutV6String(k)
 		if err := add(k6, ofCounters(types.Counters(*f))); err != nil {
-			return nil, err
+			return nil, nil, err
 		}
 	}
-	return res, nil
+	return res, idle, nil
 }
 
 func (w *world) args(q string, ifaces string, cond string, live bool) *query.Args {
@@ -596,17 +613,42 @@ func sameMem(a, b map[int]cnt) bool {
 }
 
 // checkMem compares the in-memory flows of all interfaces with exp.
-func (w *world) checkMem(u *universe, exp map[string][]flowRow) string {
+// idleMsg reports a difference in the conversations remembered without traffic: not a difference the
+// property talks about by itself (it shows in what is written only if the conversation continues).
+func (w *world) checkMem(u *universe, exp map[string][]flowRow, expIdle map[string][]int) (msg, idleMsg string) {
 	for _, i := range w.ifaces {
-		got, err := w.memory(u, i)
+		got, idle, err := w.memory(u, i)
 		if err != nil {
-			return err.Error()
+			return err.Error(), ""
 		}
 		if e := expMem(exp[i]); !sameMem(e, got) {
-			return fmt.Sprintf("in-memory flows of %s: %v, specification %v", i, got, e)
+			return fmt.Sprintf("in-memory flows of %s: %v, specification %v", i, got, e), ""
+		}
+		if expIdle == nil || idleMsg != "" {
+			continue
+		}
+		want := map[int]bool{}
+		for _, id := range expIdle[i] {
+			want[id] = true
+		}
+		same := len(want) == len(idle)
+		for id := range want {
+			same = same && idle[id]
+		}
+		if !same {
+			idleMsg = fmt.Sprintf("conversations of %s remembered without traffic: %v, specification %v", i, keysOf(idle), keysOf(want))
 		}
 	}
-	return ""
+	return "", idleMsg
+}
+
+func keysOf(m map[int]bool) []int {
+	out := []int{}
+	for k := range m {
+		out = append(out, k)
+	}
+	sort.Ints(out)
+	return out
 }
 
 // checkDB compares the database blocks of all interfaces with exp (blocks without rows are not
@@ -665,6 +707,7 @@ func execute(u *universe, beh []step, withLive bool, st *runStats, corruptStep i
 		return nil, nil, "cannot start the capture manager: " + err.Error()
 	}
 	defer w.stop()
+	var idleFail *failure
 	for i, s := range beh {
 		switch s.Act.Name {
 		case "Packet":
@@ -677,7 +720,7 @@ func execute(u *universe, beh []step, withLive bool, st *runStats, corruptStep i
 			if s.Act.D == "out" {
 				pt = slimcap.PacketOutgoing
 			}
-			if err := src.send(srcPkt{ip: buildPacket(f, s.Act.V), pktType: pt, size: uint32(s.Act.Sz)}); err != nil {
+			if err := src.send(srcPkt{ip: buildPacket(f, s.Act.V, s.Act.K), pktType: pt, size: uint32(s.Act.Sz)}); err != nil {
 				return nil, nil, fmt.Sprintf("step %d: %v", i, err)
 			}
 			st.packets++
@@ -763,7 +806,14 @@ func execute(u *universe, beh []step, withLive bool, st *runStats, corruptStep i
 		if stateFail != nil {
 			continue
 		}
-		if msg := w.checkMem(u, s.Exp.Mem); msg != "" {
+		msg, idleMsg := w.checkMem(u, s.Exp.Mem, s.Exp.Idle)
+		if idleMsg != "" && idleFail == nil {
+			idleFail = &failure{i, idleMsg, map[string]any{"what": "idle-entries", "after": s.Act.Name}}
+		}
+		if msg != "" {
+			if idleFail != nil {
+				msg += fmt.Sprintf(" (first difference, after the %s of step %d: %s)", idleFail.Desc["after"], idleFail.Step, idleFail.Msg)
+			}
 			stateFail = &failure{i, msg, map[string]any{"what": "memory", "after": s.Act.Name}}
 			continue
 		}
@@ -774,6 +824,9 @@ func execute(u *universe, beh []step, withLive bool, st *runStats, corruptStep i
 				stateFail = &failure{i, msg, map[string]any{"what": "database", "after": s.Act.Name}}
 			}
 		}
+	}
+	if stateFail == nil {
+		stateFail = idleFail
 	}
 	return fails, stateFail, ""
 }
@@ -858,8 +911,13 @@ func Replay(in io.Reader, out io.Writer, negative bool, workers int) {
 		for _, f := range fails {
 			emit(f)
 		}
+		idleOnly := func(f *failure) bool { return f != nil && f.Desc["what"] == "idle-entries" }
 		switch {
-		case mainState != nil && twinState == nil:
+		case idleOnly(mainState) && (twinState == nil || idleOnly(twinState)):
+			// only the set of conversations remembered without traffic differs and nothing written or
+			// reported was affected in this schedule
+			oc.lines = append(oc.lines, map[string]any{"id": n, "drift": true, "step": mainState.Step, "msg": mainState.Msg})
+		case mainState != nil && (twinState == nil || idleOnly(twinState)):
 			// the run with live queries deviates from the specification, the same schedule without
 			// them does not: the live queries changed what is in memory / what was written
 			mainState.Desc["cls"] = "live-query-changes-" + fmt.Sprint(mainState.Desc["what"])
